@@ -20,6 +20,56 @@ def _near_miss(name: str):
     return out
 
 
+def rule_validate(cx, m, rid):
+    plats = lit.table(m, "SUPPORTED_PLATFORMS")
+    if not isinstance(plats, dict) or not plats:
+        raise AnalysisError("SUPPORTED_PLATFORMS is not a non-empty dict literal")
+    names = list(plats)
+    true_inv = {}
+    for p, boards in plats.items():
+        for b in boards:
+            true_inv.setdefault(b, set()).add(p)
+    r = cx.rule(rid, "validate_platform_board(p,b) returns iff b is registered for exactly p, else raises ValueError; evaluated over registry x platforms plus near-miss names", floor=1000, exhaustive=True)
+    fn = m.func("validate_platform_board")
+    all_boards = sorted(set().union(*plats.values()))
+    p_dom = set(names)
+    for p in names:
+        p_dom |= _near_miss(p)
+    p_dom |= {"", "espressif32"}
+    b_dom = set(all_boards) | {"", "not-a-board", "UNO", "Uno", "nano every"}
+    for b in all_boards[:: max(1, len(all_boards) // 40)] + ["uno", "nano_every", "ATmega4809", "uno_wifi_rev2"]:
+        if b in true_inv:
+            b_dom |= _near_miss(b)
+    n_bad = 0
+    for p in sorted(p_dom):
+        for b in sorted(b_dom):
+            it = dl.Interp(m)
+            try:
+                out = it.call(fn, [p, b])
+            except dl.Unsupported as e:
+                raise AnalysisError(f"validate_platform_board left the decision-list subset: {e}")
+            want_ok = p in plats and b in plats[p]
+            if want_ok:
+                good = out.kind == "return"
+            else:
+                good = out.kind == "raise" and out.value == "ValueError"
+            if good:
+                r.ok(f"({p!r},{b!r})->{out.kind}" if n_bad < 3 and (p in plats) else None)
+            else:
+                n_bad += 1
+                if n_bad <= 5:
+                    r.fail(f"validate[{'registered' if want_ok else 'unregistered'}-pair]->{out.kind}:{out.value}", (m, fn), f"validate_platform_board({p!r}, {b!r}) gives {out!r}; expected {'return' if want_ok else 'ValueError'}", detail={"platform": p, "board": b})
+                else:
+                    r.stat.obligations += 1
+                    r.stat.failed += 1
+    # all raises in the function are ValueError
+    for n in walk_local(fn):
+        if isinstance(n, ast.Raise):
+            t = n.exc.func if isinstance(n.exc, ast.Call) else n.exc
+            r.check(dotted(t) == "ValueError", "validate/raise-type", (m, n), "validation must raise ValueError")
+
+
+
 def run(cx):
     m = mod(PIO)
     cx.consulted(m)
@@ -70,45 +120,7 @@ def run(cx):
     r.check(not bad, "BOARD_TO_PLATFORM/values", (m.rel, m.const("BOARD_TO_PLATFORM").lineno), f"inverse map disagrees with the registry for {bad[:5]}")
     cx.extra["boards"] = {p: len(b) for p, b in plats.items()}
 
-    # ---- C13-VALIDATE ------------------------------------------------------------------------
-    r = cx.rule("C13-VALIDATE", "validate_platform_board(p,b) returns iff b is registered for exactly p, else raises ValueError; evaluated over registry x platforms plus near-miss names", floor=1000, exhaustive=True)
-    fn = m.func("validate_platform_board")
-    all_boards = sorted(set().union(*plats.values()))
-    p_dom = set(names)
-    for p in names:
-        p_dom |= _near_miss(p)
-    p_dom |= {"", "espressif32"}
-    b_dom = set(all_boards) | {"", "not-a-board", "UNO", "Uno", "nano every"}
-    for b in all_boards[:: max(1, len(all_boards) // 40)] + ["uno", "nano_every", "ATmega4809", "uno_wifi_rev2"]:
-        if b in true_inv:
-            b_dom |= _near_miss(b)
-    n_bad = 0
-    for p in sorted(p_dom):
-        for b in sorted(b_dom):
-            it = dl.Interp(m)
-            try:
-                out = it.call(fn, [p, b])
-            except dl.Unsupported as e:
-                raise AnalysisError(f"validate_platform_board left the decision-list subset: {e}")
-            want_ok = p in plats and b in plats[p]
-            if want_ok:
-                good = out.kind == "return"
-            else:
-                good = out.kind == "raise" and out.value == "ValueError"
-            if good:
-                r.ok(f"({p!r},{b!r})->{out.kind}" if n_bad < 3 and (p in plats) else None)
-            else:
-                n_bad += 1
-                if n_bad <= 5:
-                    r.fail(f"validate[{'registered' if want_ok else 'unregistered'}-pair]->{out.kind}:{out.value}", (m, fn), f"validate_platform_board({p!r}, {b!r}) gives {out!r}; expected {'return' if want_ok else 'ValueError'}", detail={"platform": p, "board": b})
-                else:
-                    r.stat.obligations += 1
-                    r.stat.failed += 1
-    # all raises in the function are ValueError
-    for n in walk_local(fn):
-        if isinstance(n, ast.Raise):
-            t = n.exc.func if isinstance(n.exc, ast.Call) else n.exc
-            r.check(dotted(t) == "ValueError", "validate/raise-type", (m, n), "validation must raise ValueError")
+    rule_validate(cx, m, "C13-VALIDATE")
 
     # ---- C13-LIBS ----------------------------------------------------------------------------
     r = cx.rule("C13-LIBS", "_format_lib_section = drop falsy, de-duplicate in first-seen order, one indented continuation line each; '' when nothing remains", floor=100, exhaustive=True)
@@ -137,7 +149,7 @@ def run(cx):
     r.stat.samples.append(f"{len(cases)} library lists over {alphabet!r} up to length 4")
 
     rule_write(cx, m, "C13-WRITE")
-    rule_ini(cx, m, "C13-INI", all_boards)
+    rule_ini(cx, m, "C13-INI", sorted(set().union(*plats.values())))
 
 
 def rule_write(cx, m, rid):
